@@ -3,11 +3,12 @@ SPECIFICATION Spec
 CONSTANTS
   Sizes = {2, 3}
   InitStatuses = {"Active", "Inactive"}
+  MaxInitIdle = 1
   ArgIds = {1, 2, 3, 9}
   NewIds = {1, 4}
   Tokens = {"S", "F", "P"}
   HugeChoices = {FALSE, TRUE}
-  MaxVer = 4
+  MaxVer = 3
   AuditCap = 5
   AuditDrop = 2
   AsImplemented_ErrorMutates = TRUE
